@@ -281,9 +281,12 @@ pub fn filter_eq_f64(values: &[f64], threshold: f64, result: &mut [u64]) {
         }
     }
 
+    // The remainder must compare exactly like the SIMD lanes above: whether a row matches
+    // must not depend on its position in the column.
     let start = chunks * 4;
+    #[allow(clippy::float_cmp)]
     for i in start..values.len() {
-        if (values[i] - threshold).abs() < f64::EPSILON {
+        if values[i] == threshold {
             result[i / 64] |= 1u64 << (i % 64);
         }
     }
